@@ -7,6 +7,9 @@
 // or corrupts planned packets.  Every packet reaches the real vbi_idl_demux
 // and vbi_pfc_demux in an exactly 42-byte heap buffer (ASan sees byte 42).
 // Encoders are written from EN 300 708 / EN 300 706, not from the decoders.
+// IDL faults come singly (one copy of a packet) or as per-copy patterns over a
+// packet and its repeats (e.g. the original fails its CRC and every announced
+// repeat is lost: the next delivery must carry VBI_IDL_DATA_LOST).
 #include <cstdio>
 #include <cstdlib>
 #include <cstring>
@@ -181,14 +184,16 @@ static void pfc_encode(int pgno /*0x100..0x8FF*/, int stream, const std::vector<
 }
 
 struct IdlGot { Bytes data; unsigned flags; };
-struct PfcGot { int app; Bytes data; unsigned size_field; int pgno; unsigned stream; };
+struct PfcGot { int app; Bytes data; unsigned size_field; int pgno; unsigned stream; bool spliced; };
 
 struct C15 : World {
   const char* name() const override { return "c15"; }
   const char* property() const override { return "C15"; }
 
   // plan: knobs configure the selected IDL and PFC sources; ops:
-  //  task0 "idl"  a=[len, dseed, copies, fault(0 none,1 drop,2 crc,3 ham2,4 ham1), farg]  one IDL packet worth of user data (selected address)
+  //  task0 "idl"  a=[len, dseed, copies, fault(0 none,1 drop,2 crc,3 ham2,4 ham1), farg, pattern]  one IDL packet worth of user data (selected address).
+  //               pattern == 0: `fault` hits the one copy farg % copies.  pattern > 0: base-5 digit c of pattern is the fault of copy c
+  //               (several faults in one packet and its repeats, e.g. original fails its CRC and the announced repeat is lost)
   //  task1 "pfc"  a=[app, size, dseed, align] one PFC block;  "pfcfault" a=[page, pkt, kind(1 drop,3 ham2,4 ham1), farg] attached by index to the page/packet laid out
   //  task2 "idlx" a=[len,dseed,which] foreign IDL packet;  task3 "page" a=[mag, rows, seed] ordinary page noise; task4 "pfcx" a=[size,dseed] foreign PFC stream blocks
   Plan generate(uint64_t seed, const std::string& tier) override {
@@ -221,7 +226,25 @@ struct C15 : World {
       Op o; o.task = 0; o.kind = "idl";
       int f = 0;
       if (faults && r.chance(1, 5)) f = 1 + (int)r.below(4);
-      o.a = {(int64_t)r.below(40), (int64_t)r.below(1000), 1 + (r.chance(1, 3) ? (int64_t)r.below(3) : 0), f, (int64_t)r.below(1000)};
+      o.a = {(int64_t)r.below(40), (int64_t)r.below(1000), 1 + (r.chance(1, 3) ? (int64_t)r.below(3) : 0), f, (int64_t)r.below(1000), 0};
+      if (faults && r.chance(1, 8)) {
+        // several faults within one packet and its repeats
+        int n = 2 + (int)r.below(3);  // copies (meaningful with the repeat indicator only)
+        int64_t pat = 0, w = 1;
+        if (r.chance(2, 3)) {
+          // a copy announcing a repeat fails its CRC and every announced repeat is lost in transit
+          // (dropped or unreadable); copies before it: lost or fine
+          int c0 = (int)r.below((uint64_t)n - 1);
+          for (int c = 0; c < n; c++, w *= 5) {
+            int d = c < c0 ? (r.chance(1, 2) ? 1 : 0) : c == c0 ? 2 : (r.chance(3, 4) ? 1 : 3);
+            pat += d * w;
+          }
+        } else {
+          for (int c = 0; c < n; c++, w *= 5) pat += (int64_t)(r.chance(1, 2) ? r.below(5) : 0) * w;
+        }
+        o.a[2] = n - 1;  // copies = 1 + a[2] % 4
+        o.a[5] = pat;
+      }
       p.ops.push_back(o);
     }
     int npfc = (int)r.below(14 * (uint64_t)big);
@@ -257,6 +280,7 @@ struct C15 : World {
     vbi_pfc_demux* pfc = nullptr;
     std::vector<IdlGot> idl_got;
     std::vector<PfcGot> pfc_got;
+    bool splice = false;  // the packet being fed continues, undetectably, the page of an earlier header (see the channel)
   };
   static St* g;
 
@@ -271,8 +295,9 @@ struct C15 : World {
     HarnessScope hs;
     PfcGot x; x.app = (int)b->application_id; x.size_field = b->block_size; x.pgno = b->pgno; x.stream = b->stream;
     x.data.assign((const char*)b->block, std::min<unsigned>(b->block_size, 2048));
+    x.spliced = g->splice;
     g->pfc_got.push_back(x);
-    g->ctx->log("pfc deliver app=%d size=%u fnv=%016llx", x.app, x.size_field, (unsigned long long)hash_str(hex(x.data).c_str()));
+    g->ctx->log("pfc deliver app=%d size=%u fnv=%016llx%s", x.app, x.size_field, (unsigned long long)hash_str(hex(x.data).c_str()), x.spliced ? " (spliced page)" : "");
     return TRUE;
   }
 
@@ -333,7 +358,7 @@ struct C15 : World {
     if (!st.idl || !st.pfc) { ctx.fail("harness:new", "demux constructors failed"); g = nullptr; return; }
 
     // ---- build the transmissions of every source
-    struct IdlUnit { std::vector<Pkt> copies; Bytes user; int fault, farg; };
+    struct IdlUnit { std::vector<Pkt> copies; Bytes user; int fault, farg; int64_t pattern; };
     std::vector<IdlUnit> idl_units;
     std::vector<std::pair<int, Bytes>> pfc_blocks;
     std::vector<const Op*> pfc_faults;
@@ -347,7 +372,7 @@ struct C15 : World {
         if (!ic.have_dl) len = cap + 8;  // without DL a packet is always full
         if (len > cap + 8) len = cap + 8;
         Bytes d = gen_data(len, (uint64_t)op.arg(1), counter++);
-        IdlUnit u; u.fault = (int)(llabs(op.arg(3)) % 5); u.farg = (int)llabs(op.arg(4));
+        IdlUnit u; u.fault = (int)(llabs(op.arg(3)) % 5); u.farg = (int)(llabs(op.arg(4)) % 1000000); u.pattern = llabs(op.arg(5));
         int copies = ic.have_ri ? 1 + (int)(llabs(op.arg(2)) % 4) : 1;
         idl_encode(ic, d, 0, ci, copies, u.copies, u.user);  // without DL the data is long enough to fill the packet
         idl_units.push_back(u);
@@ -422,7 +447,17 @@ struct C15 : World {
     // ---- the channel: apply faults, deliver to both demuxes
     int last_mag_owner[9]; for (int& x : last_mag_owner) x = -1;
     int cur_pfc_page = -1;  // page whose header was sent last
-    auto unreadable_packet = [&] { if (cur_pfc_page >= 0) page_damaged[(size_t)cur_pfc_page] = 1; ctx.count("pfc_hit_by_unreadable_foreign_packet"); };
+    // What the receiver can observe of the PFC continuity sequence: the page (index) whose header it accepted
+    // last, the packet number it expects next and the packet count that header announced.  PFC packets carry no
+    // page identity, only their number: when the tail of page P, the header of P+1 and the packets of P+1 up to
+    // exactly the number expected next are all lost, the received sequence (header P, 1..k-1, k, ...) has no
+    // gap; no receiver can tell from the continuity sequence that packet k belongs to another page.  The
+    // statement promises discarding on "a gap in the continuity sequence"; here there is none to see, so what
+    // is assembled from the spliced packets is unspecified (both pages are already marked damaged) until the
+    // next header of the stream, whose continuity index cannot match.
+    int rx_hdr = -1, rx_next = 0, rx_n = 0;
+    auto rx_lost = [&] { rx_hdr = -1; st.splice = false; };
+    auto unreadable_packet = [&] { if (cur_pfc_page >= 0) page_damaged[(size_t)cur_pfc_page] = 1; rx_lost(); ctx.count("pfc_hit_by_unreadable_foreign_packet"); };
     std::vector<int> idl_status(idl_units.size(), 0);  // per unit: bit0 original arrived intact, bit1 some copy arrived intact, bit2 some copy corrupted (crc) arrived
     auto corrupt_ham = [&](Pkt& p, int from, int to, int farg, int nbits) {
       int pos = from + farg % (to - from);
@@ -430,14 +465,23 @@ struct C15 : World {
       p.b[pos] ^= (unsigned char)(1 << b1);
       if (nbits == 2) p.b[pos] ^= (unsigned char)(1 << b2);
     };
+    // probe of the shape "a packet announcing a repeat failed its CRC and the announced repeat never arrived":
+    // (unit, copy) the receiver was told to wait for, -1 none
+    long pend_unit = -1, pend_copy = -1;
     sched.spawn("idl", [&] {
       for (size_t u = 0; u < idl_units.size(); u++) {
         IdlUnit& un = idl_units[u];
         for (size_t c = 0; c < un.copies.size(); c++) {
           if (ctx.failed) return;
           Pkt p = un.copies[c];
-          bool hit = (size_t)(un.farg % (int)un.copies.size()) == c || un.fault == 0;
-          int f = hit ? un.fault : 0;
+          int f; int farg = un.farg;
+          if (un.pattern > 0) {
+            int64_t d = un.pattern; for (size_t q = 0; q < c; q++) d /= 5;
+            f = (int)(d % 5); farg = un.farg + 131 * (int)c;
+          } else {
+            bool hit = (size_t)(un.farg % (int)un.copies.size()) == c || un.fault == 0;
+            f = hit ? un.fault : 0;
+          }
           ctx.count(std::string("fault_idl_") + (f == 0 ? "none" : f == 1 ? "drop" : f == 2 ? "crc" : f == 3 ? "ham2" : "ham1"));
           if (f == 1) { ctx.log("idl unit %zu copy %zu dropped", u, c); sched.yield(); continue; }
           int hdr = 4 + ic.spa_len;
@@ -447,7 +491,7 @@ struct C15 : World {
             // format; those are not "a packet failing its CRC" and are skipped.
             int from = hdr + (ic.have_ri ? 1 : 0);
             for (int tries = 0; tries < 64; tries++) {
-              int pos = from + (un.farg + tries * 7) % (42 - from), bit = (un.farg + tries) % 8;
+              int pos = from + (farg + tries * 7) % (42 - from), bit = (farg + tries) % 8;
               p.b[pos] ^= (unsigned char)(1 << bit);
               unsigned rem = crc_of(Bytes((const char*)p.b + from, (size_t)(42 - from)));
               bool valid = ic.explicit_ci ? rem == 0 : ((rem & 255) == (rem >> 8));
@@ -457,13 +501,26 @@ struct C15 : World {
             }
           }
           if (f == 3) {
-            corrupt_ham(p, 0, hdr, un.farg, 2);
+            corrupt_ham(p, 0, hdr, farg, 2);
             // an unreadable packet address could belong to any magazine: the PFC demux may discard its block in progress
-            if (un.farg % hdr < 2) unreadable_packet();
+            if (farg % hdr < 2) unreadable_packet();
           }
-          if (f == 4) corrupt_ham(p, 0, hdr, un.farg, 1);
+          if (f == 4) corrupt_ham(p, 0, hdr, farg, 1);
           if (f == 0 || f == 4) { idl_status[u] |= 2; if (c == 0) idl_status[u] |= 1; }
           if (f == 2) idl_status[u] |= 4;
+          if (f == 2) {
+            bool announces = ic.have_ri && c + 1 < un.copies.size();
+            pend_unit = announces ? (long)u : -1; pend_copy = announces ? (long)c + 1 : -1;
+            if (announces) ctx.count("idl_crc_on_repeating_packet");
+          } else if (f == 0 || f == 4) {
+            if (pend_unit >= 0 && !(pend_unit == (long)u && pend_copy == (long)c)) {
+              ctx.count("idl_repeat_lost");
+              // the next readable packet is a fresh one, no copy of the awaited packet got through and there is
+              // a continuity reference: the property demands the data-lost flag on this delivery
+              if (c == 0 && !st.idl_got.empty() && !(idl_status[(size_t)pend_unit] & 2)) ctx.count("idl_repeat_lost_then_fresh");
+            }
+            pend_unit = pend_copy = -1;
+          }
           ctx.log("idl unit %zu copy %zu fault %d", u, c, f);
           feed(p.b);
           sched.yield();
@@ -482,7 +539,15 @@ struct C15 : World {
           ctx.count(std::string("fault_pfc_") + (f == 0 ? "none" : f == 1 ? "drop" : f == 3 ? "ham2" : "ham1"));
           if (f == 1) { ctx.log("pfc page %zu pkt %zu dropped", pg, k); sched.yield(); continue; }
           if (f == 3 || f == 4) corrupt_ham(p, 0, k == 0 ? 8 : 3, it->second.second, f == 3 ? 2 : 1);
-          ctx.log("pfc page %zu pkt %zu fault %d", pg, k, f);
+          if (f == 3) rx_lost();  // unreadable: the receiver knows it lost something
+          else if (k == 0) { rx_hdr = (int)pg; rx_next = 1; rx_n = pfc_pages[pg].n; st.splice = false; }
+          else if (rx_hdr >= 0) {
+            if ((int)k == rx_next && (int)k <= rx_n) {
+              if (rx_hdr != (int)pg && !st.splice) { st.splice = true; ctx.count("pfc_undetectable_splice"); }
+              rx_next++;
+            } else rx_lost();
+          }
+          ctx.log("pfc page %zu pkt %zu fault %d%s", pg, k, f, st.splice ? " (continues an earlier page undetectably)" : "");
           feed(p.b);
           sched.yield();
         }
@@ -494,9 +559,10 @@ struct C15 : World {
     auto spawn_units = [&](const char* nm, std::vector<std::vector<Pkt>>& units, bool pages) {
       if (units.empty()) return;
       int me = next_owner_id++;
-      sched.spawn(nm, [&ctx, &sched, &units, pages, me, &page_begin, &page_end] {
+      sched.spawn(nm, [&ctx, &sched, &units, pages, me, &page_begin, &page_end, &rx_lost] {
         for (auto& u : units) {
           if (pages) page_begin(me);
+          if (pages && g_serial) rx_lost();  // serial transmission: any other header terminates the PFC page
           for (auto& p : u) { if (ctx.failed) return; feed(p.b); sched.yield(); }
           if (pages) { page_end(); sched.yield(); }
         }
@@ -564,34 +630,50 @@ struct C15 : World {
       // a block MUST be delivered if every page it touches is undamaged and the page in which it starts
       // is not preceded, since the last damage, by ... (resynchronisation happens at a page header):
       // i.e. all pages from its first to its last are undamaged.  Blocks of size 0: optional.
-      size_t b = 0;
+      // Identical blocks (same application id and bytes, e.g. two 1-byte blocks) make the alignment of
+      // deliveries to sent blocks ambiguous, so every alignment is tracked: cands = possible indices of the
+      // next sent block not yet accounted for.
+      auto must = [&](size_t q) { const PfcBlockSent& s = pfc_sent[q]; if (s.data.empty()) return false; for (int pg = s.first_page; pg <= s.last_page; pg++) if (page_damaged[(size_t)pg]) return false; return true; };
+      std::set<size_t> cands = {0};
       for (size_t j = 0; j < st.pfc_got.size(); j++) {
         const PfcGot& gd = st.pfc_got[j];
         if (gd.pgno != pgno || gd.stream != stream) { ctx.fail("oracle:pfc-foreign", "block of page %x stream %u delivered", gd.pgno, gd.stream); break; }
         if (gd.size_field > 2047) { ctx.fail("oracle:pfc-size", "block_size %u", gd.size_field); break; }
-        size_t k = b;
-        auto must = [&](size_t q) { const PfcBlockSent& s = pfc_sent[q]; if (s.data.empty()) return false; for (int pg = s.first_page; pg <= s.last_page; pg++) if (page_damaged[(size_t)pg]) return false; return true; };
-        while (k < pfc_sent.size() && !(pfc_sent[k].data == gd.data && pfc_sent[k].app == gd.app && gd.size_field == gd.data.size())) {
-          if (must(k)) break;
-          k++;
+        std::set<size_t> next; long blocker = -1;
+        for (size_t b : cands)
+          for (size_t k = b; k < pfc_sent.size(); k++) {
+            if (pfc_sent[k].data == gd.data && pfc_sent[k].app == gd.app && gd.size_field == gd.data.size()) next.insert(k + 1);
+            if (must(k)) { if (blocker < 0) blocker = (long)k; break; }  // an undamaged block cannot be skipped
+          }
+        if (gd.spliced) {
+          // assembled from packets that continue an earlier page without an observable gap: content unspecified
+          for (size_t b : cands) next.insert(b);
+          ctx.count("pfc_spliced_delivery_tolerated");
         }
-        if (k >= pfc_sent.size() || !(pfc_sent[k].data == gd.data && pfc_sent[k].app == gd.app)) {
-          if (k < pfc_sent.size())
-            ctx.fail("oracle:pfc-delivery", "delivered block %zu (app %d size %zu) differs from the next undamaged block %zu (app %d size %zu, pages %d-%d)", j, gd.app, gd.data.size(), k, pfc_sent[k].app, pfc_sent[k].data.size(), pfc_sent[k].first_page, pfc_sent[k].last_page);
-          else
+        if (next.empty()) {
+          if (blocker >= 0) {
+            const PfcBlockSent& s = pfc_sent[(size_t)blocker];
+            ctx.fail("oracle:pfc-delivery", "delivered block %zu (app %d size %zu) differs from the next undamaged block %ld (app %d size %zu, pages %d-%d)", j, gd.app, gd.data.size(), blocker, s.app, s.data.size(), s.first_page, s.last_page);
+          } else
             ctx.fail("oracle:pfc-spurious", "delivered block %zu (app %d size %zu) is not a sent block (wrong bytes, duplicate or foreign)", j, gd.app, gd.data.size());
           break;
         }
-        b = k + 1;
+        cands.swap(next);
       }
-      if (!ctx.failed)
-        for (size_t k = b; k < pfc_sent.size(); k++) {
-          const PfcBlockSent& s = pfc_sent[k];
-          bool dmg = false;
-          for (int pg = s.first_page; pg <= s.last_page; pg++) if (page_damaged[(size_t)pg]) dmg = true;
+      if (!ctx.failed) {
+        bool ok = false; long miss = -1;
+        for (size_t b : cands) {
+          size_t k = b;
           // the last block is only complete once its last byte was sent: it was (the transmission ends after it)
-          if (!dmg && !s.data.empty()) { ctx.fail("oracle:pfc-lost", "block %zu (app %d size %zu, pages %d-%d, packets %d-%d) undamaged but not delivered", k, s.app, s.data.size(), s.first_page, s.last_page, s.first_pkt, s.last_pkt); break; }
+          while (k < pfc_sent.size() && !must(k)) k++;
+          if (k >= pfc_sent.size()) { ok = true; break; }
+          if (miss < 0) miss = (long)k;
         }
+        if (!ok) {
+          const PfcBlockSent& s = pfc_sent[(size_t)miss];
+          ctx.fail("oracle:pfc-lost", "block %ld (app %d size %zu, pages %d-%d, packets %d-%d) undamaged but not delivered", miss, s.app, s.data.size(), s.first_page, s.last_page, s.first_pkt, s.last_pkt);
+        }
+      }
     }
     { SutScope ss; vbi_idl_demux_delete(st.idl); vbi_pfc_demux_delete(st.pfc); }
     if (!ctx.failed && alloc_track_available() && alloc_live_blocks() != 0)
